@@ -28,6 +28,7 @@ import (
 type Input struct {
 	Kind      string     `json:"kind"`
 	TokenFile *hx.B      `json:"token_file"`          // content the token file is given before the first start (nil: absent)
+	TmpFile   *hx.B      `json:"tmp_file,omitempty"`  // content token.tmp is given before the first start (nil: absent)
 	Reachable bool       `json:"reachable"`           // the pre-seeded state is one a kill during a first start (before or after the WithToken repair) can leave
 	SeedKeys  []string   `json:"seed_keys,omitempty"` // namespaces given a pemkey without pemcert (kill between the two Sets)
 	Kill      []string   `json:"kill,omitempty"`      // services of a first start that is killed ...
@@ -129,6 +130,11 @@ func runCase(in Input, dir string) (Obs, string) {
 			hx.Fatal("seed token: %v", err)
 		}
 	}
+	if in.TmpFile != nil {
+		if err := os.WriteFile(filepath.Join(data, "token.tmp"), []byte(*in.TmpFile), 0o600); err != nil {
+			hx.Fatal("seed token.tmp: %v", err)
+		}
+	}
 	switch {
 	case len(in.SeedKeys) > 0:
 		seed := map[string]hx.B{}
@@ -149,6 +155,9 @@ func runCase(in Input, dir string) (Obs, string) {
 		ob.Disk0 = d0
 	default:
 		ob.Disk0 = &ChildObs{TokenFile: in.TokenFile, KV: map[string]ItemObs{}}
+		if in.TmpFile != nil {
+			ob.Disk0.TmpFiles = map[string]hx.B{"token.tmp": *in.TmpFile}
+		}
 	}
 	for i, svcs := range in.Runs {
 		r, crash := spawn(Job{Mode: "run", DataDir: data, Services: svcs}, dir, fmt.Sprintf("run%d", i), -1)
@@ -291,6 +300,34 @@ func generate(r *hx.Rand, tier string) []Input {
 		ins = append(ins, Input{Kind: "token-foreign", TokenFile: bp(tok[:19] + "w"), Runs: tokenOnly(2)})
 		ins = append(ins, Input{Kind: "token-foreign", TokenFile: bp(strings.ToUpper(tok[:10]) + tok[10:]), Runs: tokenOnly(2)})
 		ins = append(ins, Input{Kind: "token-foreign", TokenFile: bp(tok + "0"), Runs: tokenOnly(2)})
+	}
+	// (1b) every crash state of the token step itself (write token.tmp, rename): a leftover
+	// token.tmp - empty, cut short, complete, foreign - next to no token file, next to a legacy
+	// malformed token file and next to an established token; three starts (thorough: four) each
+	for t := 0; t < ntok; t++ {
+		tok, other := genToken(r), genToken(r)
+		var tmps []*hx.B
+		for _, k := range []int{0, 1, r.Range(2, 18), 19, 20} {
+			tmps = append(tmps, bp(other[:k]))
+		}
+		tmps = append(tmps, bp("not an id\n"), bp(other+other[:5]))
+		for _, tmp := range tmps {
+			ins = append(ins, Input{Kind: "tmp-left-no-token", TmpFile: tmp, Reachable: true, Runs: tokenOnly(nruns + 1)})
+		}
+		for _, tf := range []string{"", tok[:r.Range(1, 19)]} {
+			for _, tmp := range []*hx.B{tmps[0], tmps[2], tmps[4]} {
+				ins = append(ins, Input{Kind: "tmp-left-legacy-token", TokenFile: bp(tf), TmpFile: tmp, Reachable: true, Runs: tokenOnly(nruns + 1)})
+			}
+		}
+		for _, tmp := range []*hx.B{tmps[0], tmps[2], tmps[4], tmps[5]} {
+			ins = append(ins, Input{Kind: "tmp-left-established-token", TokenFile: bp(tok), TmpFile: tmp, Reachable: true, Runs: tokenOnly(nruns + 1)})
+		}
+	}
+	// one history with services on a directory holding a leftover token.tmp
+	{
+		other := genToken(r)
+		ins = append(ins, Input{Kind: "tmp-left-history", TmpFile: bp(other[:9]), Reachable: true,
+			Runs: [][]string{{"ssh", "agent"}, genSet(r, 1), {"ssh", "ftp"}}})
 	}
 	// (2) restart histories of length 2..5 with varying service sets
 	nh := 6
